@@ -173,13 +173,15 @@ Theorem C12_grid_inside_implicit_bounds (tcols trows : Z) (colflow dense : bool)
     if colflow then (x1 <= x /\ y1 <= y /\ y + h <= y2)%Z else (y1 <= y /\ x1 <= x /\ x + w <= x2)%Z.
 Proof. exact (grid_inside_implicit_bounds tcols trows colflow dense items pl x1 x2 y1 y2). Qed.
 Print Assumptions C12_grid_inside_implicit_bounds.
-(* ... but NOT inside the first-axis end: the implicit grid is not extended for a spanning auto-placed item *)
-Theorem C12_grid_first_axis_bound_refuted :
-  exists items pl (x1 x2 y1 y2 x y w h : Z), valid_items items /\
-    grid_place 3 2 false false items = Ok (pl, (x1, x2, y1, y2)) /\
-    nth_error pl 0 = Some (Some (x, y, w, h)) /\ (y2 < y + h)%Z.
-Proof. exact grid_first_axis_bound_refuted. Qed.
-Print Assumptions C12_grid_first_axis_bound_refuted.
+(* ... and inside the implicit grid on both axes: implicit tracks are created up to the end line of every area, also
+   for auto-placed items that span beyond the last track of the flow axis (fixed in /repo, F73) *)
+Theorem C12_grid_inside_implicit_grid (tcols trows : Z) (colflow dense : bool) (items : list item)
+    (pl : list (option area)) (x1 x2 y1 y2 : Z) :
+  valid_items items -> grid_place tcols trows colflow dense items = Ok (pl, (x1, x2, y1, y2)) ->
+  forall i x y w h, nth_error pl i = Some (Some (x, y, w, h)) ->
+    (x1 <= x /\ x + w <= x2 /\ y1 <= y /\ y + h <= y2)%Z.
+Proof. exact (grid_inside_implicit_grid tcols trows colflow dense items pl x1 x2 y1 y2). Qed.
+Print Assumptions C12_grid_inside_implicit_grid.
 
 (* sparse packing: fully automatic items, in order-modified document order, never go back on the flow axis *)
 Theorem C12_grid_row_major_order (tcols trows : Z) (colflow : bool) (items : list item) (l : plog) (b : Z * Z * Z * Z) :
@@ -215,17 +217,18 @@ Print Assumptions C12_grid_negative_lines_from_end.
 
 (* step 1 on the items of the style sheet (grid_layout_place = negative lines resolved, then the phases): every item
    is placed on at least 1 x 1 tracks; an item given by line numbers on both axes occupies exactly its css-grid 8.3
-   range; areas stay inside the implicit grid on the second axis and never start before its first track, so the
-   coordinates counted from the first implicit track (the indices used by track sizing and step 4) are >= 0 *)
+   range (with no explicit track on an axis, line -1 is line 1); every area lies inside the implicit grid, so the
+   coordinates counted from the first implicit track (the indices used by track sizing and step 4) are >= 0 and the
+   tracks it spans exist *)
 Theorem C12_grid_layout_placement (tcols trows : Z) (colflow dense : bool) (items : list item)
     (pl : list (option area)) (x1 x2 y1 y2 : Z) :
   valid_items items -> grid_layout_place tcols trows colflow dense items = Ok (pl, (x1, x2, y1, y2)) ->
   length pl = length items /\
   forall i it, nth_error items i = Some it ->
     exists x y w h : Z, nth_error pl i = Some (Some (x, y, w, h)) /\ (1 <= w)%Z /\ (1 <= h)%Z /\
-      (0 <= x - x1)%Z /\ (0 <= y - y1)%Z /\ (if colflow then (y + h <= y2)%Z else (x + w <= x2)%Z) /\
-      (forall cx cw cy ch, css_range (Z.max 1 tcols) (col_s it) (col_e it) = Some (cx, cw) ->
-                           css_range (Z.max 1 trows) (row_s it) (row_e it) = Some (cy, ch) ->
+      (0 <= x - x1)%Z /\ (0 <= y - y1)%Z /\ (x + w <= x2)%Z /\ (y + h <= y2)%Z /\
+      (forall cx cw cy ch, css_range tcols (col_s it) (col_e it) = Some (cx, cw) ->
+                           css_range trows (row_s it) (row_e it) = Some (cy, ch) ->
                            (x, y, w, h) = (cx, cy, cw, ch)).
 Proof. exact (layout_placement tcols trows colflow dense items pl x1 x2 y1 y2). Qed.
 Print Assumptions C12_grid_layout_placement.
@@ -264,59 +267,51 @@ Theorem C12_tracks_nonneg (ts : list track) (box gap : Q) (stretch : bool) (out 
 Proof. exact (tracks_nonneg ts box gap stretch out). Qed.
 Print Assumptions C12_tracks_nonneg.
 
-(* fr tracks without content (base 0), positive free space F: closed form of every track size *)
+(* closed form for fr tracks without content and positive free space F: u = F / max(1, sum of factors), an fr track f is
+   f * u, whatever the content distribution *)
 Theorem C12_tracks_closed_form (ts : list track) (box gap : Q) (stretch : bool) (out : list Q) :
   Forall plain ts -> 0 < free_space ts box gap ->
   resolve_tracks ts box gap stretch = Some out ->
-  let F := free_space ts box gap in
-  let u := F / Qmax 1 (fr_sum ts) in
-  let R := F - u * fr_sum ts in
-  let e := if stretch && negb (Nat.eqb (length (filter is_fr ts)) 0)
-           then (if Qlt_le_dec 0 R then R / nfrQ ts else 0) else 0 in
-  Forall2 (fun t o => o == match t with TFr f _ => f * u + e | _ => base_of box t end) ts out.
-Proof. exact (tracks_closed_form ts box gap stretch out). Qed.
+  let u := free_space ts box gap / Qmax 1 (fr_sum ts) in
+  Forall2 (fun t o => o == match t with TFr f _ => f * u | _ => base_of box t end) ts out.
+Proof. exact (tracks_closed ts box gap stretch out). Qed.
 Print Assumptions C12_tracks_closed_form.
 
+(* tracks_partition_container: fixed, percentage and fr tracks with the gaps fill the container exactly when the free
+   space is positive and the fr factors sum to at least 1 *)
 Theorem C12_tracks_partition_container (ts : list track) (box gap : Q) (stretch : bool) (out : list Q) :
-  Forall plain ts -> 0 < free_space ts box gap -> (1 <= length (filter is_fr ts))%nat ->
-  1 <= fr_sum ts \/ stretch = true ->
+  Forall plain ts -> 0 < free_space ts box gap -> 1 <= fr_sum ts ->
   resolve_tracks ts box gap stretch = Some out ->
   qsum out + (qlen ts - 1) * gap == box.
 Proof. exact (tracks_partition_container ts box gap stretch out). Qed.
 Print Assumptions C12_tracks_partition_container.
 
-Theorem C12_tracks_small_factors_leave_space (ts : list track) (box gap : Q) (out : list Q) :
+(* css-grid 12.7.1: factors summing to less than 1 take only that fraction of the free space, whatever the content
+   distribution (fixed in /repo, F74: step 1.5 no longer stretches fr tracks) *)
+Theorem C12_tracks_small_factors_leave_space (ts : list track) (box gap : Q) (stretch : bool) (out : list Q) :
   Forall plain ts -> 0 < free_space ts box gap -> fr_sum ts < 1 ->
-  resolve_tracks ts box gap false = Some out ->
+  resolve_tracks ts box gap stretch = Some out ->
   qsum out + (qlen ts - 1) * gap == box - free_space ts box gap * (1 - fr_sum ts).
-Proof. exact (tracks_small_factors_leave_space ts box gap out). Qed.
+Proof. exact (tracks_small_factors_leave_space ts box gap stretch out). Qed.
 Print Assumptions C12_tracks_small_factors_leave_space.
-Theorem C12_tracks_small_factors_leave_space_refuted :
-  exists ts box gap out, Forall plain ts /\ 0 < free_space ts box gap /\ fr_sum ts < 1 /\
-    resolve_tracks ts box gap true = Some out /\
-    ~ qsum out + (qlen ts - 1) * gap == box - free_space ts box gap * (1 - fr_sum ts).
-Proof. exact tracks_small_factors_leave_space_refuted. Qed.
-Print Assumptions C12_tracks_small_factors_leave_space_refuted.
 
+(* fr_proportional: fr tracks are proportional to their factors *)
 Theorem C12_fr_proportional (ts : list track) (box gap : Q) (stretch : bool) (out : list Q) :
-  Forall plain ts -> 0 < free_space ts box gap -> 1 <= fr_sum ts \/ stretch = false ->
+  Forall plain ts -> 0 < free_space ts box gap ->
   resolve_tracks ts box gap stretch = Some out ->
   forall i j fi bi fj bj oi oj,
     nth_error ts i = Some (TFr fi bi) -> nth_error ts j = Some (TFr fj bj) ->
     nth_error out i = Some oi -> nth_error out j = Some oj -> oi * fj == oj * fi.
 Proof. exact (fr_proportional ts box gap stretch out). Qed.
 Print Assumptions C12_fr_proportional.
-Theorem C12_fr_proportional_refuted :
-  exists ts box gap out, Forall plain ts /\ 0 < free_space ts box gap /\
-    resolve_tracks ts box gap true = Some out /\
-    exists oi oj, nth_error out 0 = Some oi /\ nth_error out 1 = Some oj /\ ~ oi * (1 # 2) == oj * (1 # 4).
-Proof. exact fr_proportional_refuted. Qed.
-Print Assumptions C12_fr_proportional_refuted.
-Theorem C12_tracks_partition_with_content_refuted :
-  exists ts box gap out, Forall track_nonneg ts /\ 0 < free_space ts box gap /\ 1 <= fr_sum ts /\
-    resolve_tracks ts box gap true = Some out /\ Forall2 Qeq out [90; 60; 180] /\ box < qsum out + (qlen ts - 1) * gap.
-Proof. exact tracks_partition_with_content_refuted. Qed.
-Print Assumptions C12_tracks_partition_with_content_refuted.
+(* fixed in /repo (F75): a flexible track with content is frozen and the fr size is computed again; the result is the one
+   of the css-grid 12.7.1 reference algorithm *)
+Theorem C12_tracks_refreeze_example :
+  exists out, resolve_tracks [TFr 1 90; TFr 1 0; TFr 3 0] 300 0 true = Some out /\
+    Forall2 Qeq out [90; 105 # 2; 315 # 2] /\ qsum out == 300 /\
+    spec_axis_content [TFr 1 90; TFr 1 0; TFr 3 0] 300 0 out = true.
+Proof. exact tracks_refreeze_example. Qed.
+Print Assumptions C12_tracks_refreeze_example.
 
 (* track positions (3.5, justify-content normal/start) and item rectangles (4) *)
 Theorem C12_track_positions (sizes : list Q) (gap pos : Q) (k : nat) : (k < length sizes)%nat ->
